@@ -81,7 +81,33 @@ def legal(op, ver, sender, seq, i, extra=None, after_finished=False):
             return None               # clients may ignore HelloRequest
         if tls13 and post and extra in (NST, KEY_UPDATE) and sender == "s":
             return True
+        if extra == CERT_REQ and sender == "s" and tls13:
+            # RFC 8446 4.3.2: optional, right after EncryptedExtensions
+            if m in (CERT, COMPRESSED_CERT) and i > 0 and seq[i - 1] == EE \
+                    and CERT_REQ not in seq:
+                return True
+            return False
+        if extra == CERT_REQ and sender == "s" and not tls13:
+            # a certificate-authenticated server may ask for a client
+            # certificate right before ServerHelloDone (RFC 5246 7.4.4);
+            # anonymous / pure-SRP servers must not; SRP with a server
+            # certificate is not settled by RFC 5054 -> no verdict
+            if m == SHD and CERT in seq[:i] and CERT_REQ not in seq:
+                return None
+            return False
         return False
     if op == "replace":
         return False
+    if op == "append":
+        # message m immediately followed, in the same record, by `extra`
+        if tls13 and m in (CLIENT_HELLO, SERVER_HELLO, FINISHED, KEY_UPDATE):
+            # RFC 8446 5.1: messages that precede a key change must end on
+            # a record boundary
+            return False
+        # otherwise packing is fine iff the resulting message sequence is:
+        # it is the same as inserting `extra` before message i+1
+        return legal("insert", ver, sender, seq, min(i + 1, len(seq) - 1),
+                     extra) if i + 1 < len(seq) else \
+            (True if tls13 and extra in (NST, KEY_UPDATE) and sender == "s"
+             else False)
     raise ValueError(op)
